@@ -200,6 +200,9 @@ def r20_3(run):
                     run.ob('R20.3', up, up.node, 'an error mapping drops the entry and leaves no timer armed [%s]' % tag, ok, slot='error:%s' % old_timed,
                            message='<error> mapping with %s: effects %s%s' % (tag, tags, '' if expire_cancels else ' (and _expire does not cancel the pending timer: it fires later on a removed entry)'))
                 elif new == 'never':
+                    exp_none = any(n.kind == 'stmt' and assign_to(n.ast, 'self.expires') is not None and is_none(assign_to(n.ast, 'self.expires')) for n, _ in p.steps)
+                    run.ob('R20.3', up, up.node, 'a NEVER mapping is recorded as having no expiry time [%s]' % tag, exp_none, slot='never-recorded:%s' % old_timed,
+                           message='on a NEVER mapping self.expires keeps the old time: the next timed mapping is handled as a re-timing of a timer that no longer exists')
                     ok = ('cancel' in tags) if old_timed else ('schedule' not in tags)
                     run.ob('R20.3', up, up.node, 'a NEVER mapping has no timer armed afterwards [%s]' % tag, ok, slot='never:%s' % old_timed,
                            message='NEVER mapping with %s: effects %s - the old timer still removes the now permanent mapping' % (tag, tags))
@@ -276,6 +279,12 @@ def r20_4(run):
             continue
         k = sum(1 for n, _ in p.steps for a in node_asts(n) if isinstance(a, ast.Call) and callee_attr(a) == 'notify')
         run.ob('R20.4', ex, ex.node, 'one "expired" per expiry', k == 1, slot='expired-once', message='%d notifications in _expire' % k)
+    dels = ge.nodes_where(lambda n: any(isinstance(a, ast.Delete) or (isinstance(a, ast.Call) and callee_attr(a) == 'pop') for a in node_asts(n)))
+    nots = ge.nodes_where(lambda n: any(isinstance(a, ast.Call) and callee_attr(a) == 'notify' for a in node_asts(n)))
+    iters = [n for n in ge.live if n.kind == 'iter']
+    ok = bool(nots) and all(any(ge.dominates(x, n) for x in (dels + iters)) and not any(d in ge.reachable([s_ for _, s_ in n.succ]) for d in dels) for n in nots)
+    run.ob('R20.4', ex, ex.node, 'the mapping is removed before listeners hear "expired"', ok, slot='remove-before-notify',
+           message='_expire notifies listeners before deleting the keys: a listener that looks the name up still gets the expired mapping, and one that raises leaves it in the map for good')
     nt = M_(run, am, 'notify')
     loops = [n for n in walk_unit(nt) if isinstance(n, ast.For) and dotted(n.iter) in ('self.listeners',) or
              (isinstance(n, ast.For) and isinstance(n.iter, ast.Call) and n.iter.args and dotted(n.iter.args[0]) == 'self.listeners')]
